@@ -154,6 +154,8 @@ def build_wf_p(spec: dict, pv: dict):
     if k == "kaiser":
         return wf.KaiserWaveform(P(spec["d"]), P(spec["area"]), spec.get("beta", 14.0))
     if k == "interp":
+        if "interp1d_kind" in spec:
+            return wf.InterpolatedWaveform(P(spec["d"]), P(spec["values"]), interpolator="interp1d", kind=spec["interp1d_kind"])
         return wf.InterpolatedWaveform(P(spec["d"]), P(spec["values"]))
     if k == "custom":
         return wf.CustomWaveform(spec["samples"])
